@@ -18,13 +18,15 @@ EXTENDS Integers, Sequences, FiniteSets, TLC, Json
 CONSTANTS N,          \* number of types
           MaxRoot,    \* max properties of the root
           MaxOther,   \* max properties of every other type
-          Ring        \* TRUE: type i may only refer to i+1 (mod N) and to the root (long cycles with chords)
+          Ring,       \* TRUE: type i may only refer to i+1 (mod N) and to the root (long cycles with chords)
+          ModesUsed,  \* subset of Modes explored for references (e.g. {"plain"} for the pure requirement graphs)
+          FatTypes    \* how many non-root types (1..FatTypes) may have as many properties as the root
 
 Types == 0..(N - 1)
 Modes == {"plain", "optional", "nullable", "array"}
 
 Targets(t) == IF Ring THEN {(t + 1) % N, 0} ELSE Types
-Refs(t)    == {[k |-> "ref", t |-> x, u |-> x, m |-> m] : x \in Targets(t), m \in Modes}
+Refs(t)    == {[k |-> "ref", t |-> x, u |-> x, m |-> m] : x \in Targets(t), m \in ModesUsed}
 Choices(t) == IF Ring THEN {} ELSE {[k |-> "choice", t |-> pr[1], u |-> pr[2], m |-> "plain"] : pr \in {q \in Types \X Types : q[1] < q[2]}}
 Scalar     == [k |-> "scalar", t |-> 0, u |-> 0, m |-> "plain"]
 Kinds(t)   == {Scalar} \cup Refs(t) \cup Choices(t)
@@ -41,7 +43,7 @@ Init == def = <<>> /\ next = 0
 Define(S) == /\ next < N
              /\ def' = Append(def, S)       \* def[i+1] is the property set of type i
              /\ next' = next + 1
-Next == \E S \in PropSets(next, IF next = 0 THEN MaxRoot ELSE MaxOther) : Define(S)
+Next == \E S \in PropSets(next, IF next = 0 \/ next <= FatTypes THEN MaxRoot ELSE MaxOther) : Define(S)
 Spec == Init /\ [][Next]_vars
 
 Props(t) == def[t + 1]
